@@ -33,6 +33,29 @@ LEVEL_TEXT = ("Runtime monitoring: the real crate, rebuilt from /repo's working 
 LEVEL_NOTE = ("Trusted: the harness's owned-value model (Vec of pushed values), rustc/std, the finite typed catalogue in "
               "harness/src/catalogue.rs and the value generators in harness/src/val.rs; paths the workloads do not drive are not covered.")
 
+SPECIFIC = {
+ "C01": "Held-on-K-executions claim over 91 typed compositions x all listed input forms x three value domains x default / statistics-trained regions; no exhaustive part, the catalogue and generators are samples of 'every composition / value'.",
+ "C02": "All histories of length <= 4 (quick) / 6 (thorough) over {push a, push b, push c, reserve_items, reserve_regions} on 14 small entries are enumerated completely; beyond that random short, long (300 / 2500 ops) and marathon (70k / 300k pushes) histories with full or sampled re-reads.",
+ "C03": "FlatStack compared with a Vec model after every operation for each of the three index containers; exploration only.",
+ "C04": "The hook observes every byte string that reaches the crate's single unchecked UTF-8 conversion in the executions driven; the program-text half of the quantifier is approximated by probing the compiled Push impls for 20 non-string input types and is otherwise out of reach for runtime monitoring. Thorough adds Miri, which judges any unsafe code the workload executes.",
+ "C05": "Complete enumeration of all push/clear sequences up to length 5 (quick) / 7 (thorough) over an 11-letter transition-covering alphabet for 4 strides on 4 containers (exhaustive: true for that bound), plus long structured random sequences; the two build profiles must agree on an observation digest.",
+ "C06": "All frequency profiles over 1..4 (quick) / 1..5 (thorough) symbols with counts from {1,2,3,5,8}, each with all items of length <= 3 and all pairs of items of length <= 2, are enumerated completely; special profiles (Fibonacci up to 21-bit codes, 257..1000 equiprobable symbols, single symbol, empty alphabet, three generations) and random profiles beyond.",
+ "C07": "Model-based exploration of up to 4 merge generations with five pool shapes; the one-byte claim is only asserted in the two regimes where the heavy-hitter summary is provably exact or the string provably dominant.",
+ "C08": "All (H1, H2) with |H1|, |H2| <= 3 over 3 values (including the empty item) on 16 entries enumerated completely; random histories with up to 5 clear cycles elsewhere.",
+ "C09": "Exploration: clone and clone_from copies under identical and divergent continuations, destinations pre-filled by unrelated histories.",
+ "C10": "Exploration: twin without reservations; merged vs default under the same pushes with 0..3 sources, ancestors and single-ancestor chains.",
+ "C11": "All sequences of length <= 6 (quick) / 8 (thorough) over {a, b, a in another form, clear} on every top-level collapsing entry enumerated completely; random sequences split by clear / merge / clone / clone_from / serde elsewhere.",
+ "C12": "Exploration with adversarial ragged row orders; the index counter is exact (k-th push must return k).",
+ "C13": "Exploration; every out-of-range probe must panic, on items that have a successor in the region.",
+ "C14": "Exploration of the five laws with clone_onto targets drawn from the entry's own generators.",
+ "C15": "All ordered pairs of the 40 vectors of length <= 3 over a 3-value domain x 9 (slices) / 16 (Huffman) representation pairs and all triples are compared completely for 6 compositions (exhaustive for that bound); random longer vectors beyond.",
+ "C16": "Exploration through serde_json; values restricted to what JSON carries losslessly.",
+ "C17": "The counting allocator observes every allocator call of the measured push windows; exploration over batches and pre-sizing paths; thorough records valgrind's independent allocation count next to the counter's.",
+ "C18": "Exploration with a sound lower bound from the reference model and two metamorphic twins for the clear clause.",
+ "C19": "Same complete enumeration as C05 for IndexOptimized and IndexList with the documented byte cost as oracle (exhaustive: true for that bound); FlatStack clause by comparison with the bare region.",
+ "C20": "Exploration: every listed form of every entry against a twin fed the canonical form, including the next generation merged from each.",
+}
+
 ALL = [f"C{i:02d}" for i in range(1, 21)]
 
 def main():
@@ -68,7 +91,7 @@ def main():
                 "evidence_file": f"/verif/evidence/{pid}.json",
                 "replay_cmd_template": f"./check {pid} --replay {{path}}",
                 "engine": "fcverif",
-                "level_claimed": {"category": "exploration", "text": LEVEL_TEXT, "design_ref": f"DESIGN.md section {ref}"},
+                "level_claimed": {"category": "exploration", "text": LEVEL_TEXT + " " + SPECIFIC[pid], "design_ref": f"DESIGN.md section {ref}"},
                 "level_note": LEVEL_NOTE,
                 "technique": "runtime monitoring: " + tech,
             })
